@@ -8,6 +8,7 @@ A  library stages run in supervised worker processes: a panic, abort, stack over
 B  the gram binary: every observation (exit status, stdout, stderr) is judged by TLC against the outcome contract (Trace_Cli)."""
 import json, os, random, itertools
 import vf, cli, grammar
+from checks import pegcommon
 from checks import pipecommon as pc, lexcommon as lc, c07
 
 LEX = {"ASTERISK": "*", "BOOLEAN": "bool", "COLON": ":", "DOUBLE_EQUALS": "==", "ELSE": "else", "EQUALS": "=", "FALSE": "false", "GREATER_THAN": ">",
@@ -191,6 +192,8 @@ def run(c):
             content = open(paths[ev["file"]], "rb").read()[:300] if ev.get("file") in paths else b""
             c.violate("gram %s: %s" % (ev.get("cmd"), rj["what"][:160]), {"kind": "cli-contract", "what": rj["what"][:300], "cmd": ev.get("cmd"), "content": repr(content)})
     c.sample(evs[len(evs) // 2])
+    # ---- the parser function by function against its specification: a crash, or a rejection without a diagnostic, is this property's
+    pegcommon.run(c, "C14", 400 if c.quick else 4000)
     # probes
     e2 = dict(evs[0], exit=101, outlen=0, errlen=50, nerr=0)
     ptr = os.path.join(d, "probe.ndjson")
